@@ -98,6 +98,10 @@ func runDict(args []string) string {
 			} else {
 				out = append(out, "G:none")
 			}
+		case "Z":
+			// from here on the zero-value Dict (a Dict field nobody initialised)
+			d = ogorek.Dict{}
+			out = append(out, "Z:ok")
 		case "L":
 			out = append(out, "L:"+strconv.Itoa(d.Len()))
 		case "I":
@@ -220,6 +224,9 @@ func runEnc(args []string) (out string) {
 		// call under test writes is observed
 		_ = enc.Encode(int64(7))
 		_ = enc.Encode([]any{"x", 1.5})
+		// ... and one call that failed part-way (a documented limitation at protocols 0..3; a type error elsewhere)
+		_ = enc.Encode([]any{int64(1), ogorek.Class{Module: "a\nb", Name: "c"}})
+		_ = enc.Encode([]any{"y", make(chan int)})
 		w.writes = nil
 		w.failAt = -1
 		ncalls, nhits = 0, 0
